@@ -670,6 +670,9 @@ pub fn run(tier: &str) -> Result<Report, String> {
         vec!["!{x}: AX {x}".into(), "a".into(), "!{x}: AG EF {x}".into()],
         vec!["a".into(), "a".into(), "~ a".into()],
         vec!["3{x}: 3{y}: (@{x}: ~{y} & AX {x}) & (@{y}: AX {y})".into(), "AG a".into()],
+        // more than 10 (and more than 20) different formulae: entry names formula-10.. sort differently as strings and as numbers
+        (0..12).map(|i| format!("{} {}", ["~", "EX", "AX", "EF", "AF", "EG", "AG"][i % 7], ["a", "b", "(a & b)", "(EF a)", "(~ b)"][(i / 3) % 5])).collect(),
+        (0..25).map(|i| format!("{} ({} {})", ["EF", "AG", "~", "EX"][i % 4], ["a", "b", "(a | b)", "(a EU b)", "(AX a)"][(i / 2) % 5], ["& a", "| b", "^ b", "=> a", "& ~ a"][(i / 5) % 5])).collect(),
     ];
     for b in nets.iter().filter(|b| which.contains(&b.name.as_str())) {
         for l in &alists {
